@@ -282,7 +282,39 @@ def _grid_direction(chk):
             "B4 exact evaluation", th_validate)
 
 
-def _stepping_loop(chk, kind, canary=False, ham=False):
+ESC = "error scale is built from the step's two end states and the REQUESTED (rtol, atol)"
+
+
+_REPLAY_ESC = """
+import numpy as np
+from hiten.algorithms.dynamics.rhs import create_rhs_system
+from hiten.algorithms.integrators.rk import AdaptiveRK
+def rhs(t, y):
+    return np.array([y[1], -y[0]])
+system = create_rhs_system(rhs, dim=2, name="small oscillator")
+A = 1e-4                       # small amplitude: relative and absolute tolerance act very differently
+t = np.linspace(0.0, 10.0, 401)
+exact = np.column_stack([A * np.cos(t), -A * np.sin(t)])
+worst = 0.0
+for rtol, atol in ((1e-6, 1e-12), (1e-8, 1e-14)):
+    sol = AdaptiveRK(order=ORDER, rtol=rtol, atol=atol).integrate(system, np.array([A, 0.0]), t)
+    ratio = float(np.max(np.abs(sol.states - exact)) / (atol + rtol * A))
+    print("rtol", rtol, "atol", atol, "max error / (atol + rtol*|y|) =", ratio)
+    worst = max(worst, ratio)
+print("CONFIRMED" if worst > 200.0 else "NOT-CONFIRMED")
+"""
+
+
+def _escale_contract(ctx, prefix, node_y, y_high, rtol, atol):
+    """call-site contract of _error_scale (its own postcondition atol + rtol*max(|y|,|y_new|) is proved in C02)"""
+    def escale(y_, yh_, r_, a_):
+        ends = z3.Or(z3.And(y_.t == node_y().t, yh_.t == y_high().t), z3.And(y_.t == y_high().t, yh_.t == node_y().t))
+        ctx.check(prefix + ESC, z3.And(ends, zv(r_) == zv(rtol), zv(a_) == zv(atol)))
+        return ctx.fresh("scale", "vec")
+    return escale
+
+
+def _stepping_loop(chk, kind, canary=False, ham=False, only=None):
     import hiten.algorithms.integrators.rk as rk
     qual = {"rk45": "_RK45._integrate_rk45", "dop853": "_DOP853._integrate_dop853"}[kind] + ("_ham" if ham else "")
     fn_label = RK + ":" + qual
@@ -363,6 +395,7 @@ def _stepping_loop(chk, kind, canary=False, ham=False):
             yh = ctx.fresh("y_high", "vec")
             ctx.ghost["h_used"] = h
             ctx.ghost["y_high"] = yh
+            ctx.ghost["y_node"] = y
             ctx.check("loop: kernel is called at the current node (t, y) = (ts[-1], ys[-1])",
                       z3.And(z3.BoolVal(bool(okf)), zv(t) == ctx.ghost["at_head"][0]))
             if kind == "rk45":
@@ -370,7 +403,7 @@ def _stepping_loop(chk, kind, canary=False, ham=False):
             return yh, ctx.fresh("y_low", "vec"), ctx.fresh("err_vec", "vec"), ctx.fresh("err5", "vec"), \
                 ctx.fresh("err3", "vec"), "K"
         ns[("rk45_step%s_jit_kernel" if kind == "rk45" else "dop853_step%s_jit_kernel") % ("_ham" if ham else "")] = kernel
-        ns["_error_scale"] = lambda y, yh, r, a: ctx.fresh("scale", "vec")
+        ns["_error_scale"] = _escale_contract(ctx, "loop: ", lambda: ctx.ghost["y_node"], lambda: ctx.ghost["y_high"], rtol, atol)
         ns["_pi_accept_factor"] = lambda e, ep, o: _bf(ctx, "acc")
         ns["_pi_reject_factor"] = lambda e, o: _bf(ctx, "rej")
 
@@ -419,8 +452,14 @@ def _stepping_loop(chk, kind, canary=False, ham=False):
         chk.canary(f"canary: {qual} exits with t < tf (false)",
                    lambda: explore().verdict(f"{fn_label}#loop0.exit[t==tf and last node is tf]"))
         return
+    if only is not None:
+        for nm in only:
+            chk.obl(f"{qual}: loop: {nm}", "K2 path VC", [fn_label], "B1 z3 (B2 cvc5 on unknown)",
+                    lambda nm=nm: explore().verdict("loop: " + nm, replay=None if ham else _REPLAY_ESC.replace(
+                        "ORDER", "5" if kind == "rk45" else "8")))
+        return
     names = ["loop: kernel is called at the current node (t, y) = (ts[-1], ys[-1])",
-             "loop: _adjust_step_to_endpoint called with t < t_end and h > 0"]
+             "loop: _adjust_step_to_endpoint called with t < t_end and h > 0", "loop: " + ESC]
     for nm in ["t0<=t<=tf", "ts[-1]==t", "ys[-1]==y", "dys[-1]==f(t,y)", "list lengths consistent"]:
         names += [f"{fn_label}#loop0.init[{nm}]", f"{fn_label}#loop0.preserve[{nm}]"]
     names += [f"{fn_label}#loop0.step[node appended iff err_norm <= 1; then t advances by exactly the h used and the node is y_high]",
